@@ -35,6 +35,10 @@ def gen_param_value(r, family, depth=0):
         return {('k' + str(i)) if r.random() < 0.7 else ''.join(r.choice('abcxyz') for _ in range(2)) + str(i):
                 (gen_param_value(r, r.choice(['int', 'str', 'list', 'dict', 'float']), depth + 1) if depth < 2 else i)
                 for i in range(r.choice([0, 1, 2, 3]))}
+    if family == 'intdict':
+        # mappings with integer keys (YAML / in-memory configs): homogeneous keys, natural order != string order
+        ks = r.sample([2, 10, -1, 100, 7, 33, 0], r.choice([2, 3, 4]))
+        return {'$intkeys': [[k_, gen_param_value(r, r.choice(['int', 'str']))] for k_ in ks]}
     if family == 'placeholder':
         return r.choice(['{VA}/in', 'pre_{VB}', '{VA}{VB}', 'x{VA}y{VA}', '{VB}/{VA}/z', '{VC}'])
     if family == 'obj':
@@ -64,7 +68,7 @@ def gen_param_value(r, family, depth=0):
     raise ValueError(family)
 
 
-FAMILIES = ['int', 'int', 'str', 'float', 'bool', 'list', 'dict', 'none_or_int', 'placeholder', 'obj', 'objlist']
+FAMILIES = ['int', 'int', 'str', 'float', 'bool', 'list', 'dict', 'none_or_int', 'placeholder', 'obj', 'objlist', 'intdict']
 
 
 def obj_equiv(a, b):
@@ -286,13 +290,15 @@ def gen_world(r, knobs=None):
         ci = r.choice(cfg_of_pipe[n_pipes - 1] if r.random() < 0.6 else range(len(configs)))
         root = {'cfg': ci, 'overrides': None}
         if r.random() < k['p_override']:
-            root['overrides'] = gen_overrides(r, {'classes': classes, 'pipelines': pipelines, 'configs': configs}, root)
+            root['overrides'] = gen_overrides(r, {'classes': classes, 'pipelines': pipelines, 'configs': configs}, root, k.get('no_for_ns', False))
         roots.append(root)
     world = {'classes': classes, 'pipelines': pipelines, 'configs': configs, 'roots': roots}
+    # JSON files cannot carry integer mapping keys: such worlds are rendered in memory or as YAML only
+    world['no_json'] = any(p['family'] == 'intdict' for c in classes for p in c['params'])
     return world
 
 
-def gen_overrides(r, world, root):
+def gen_overrides(r, world, root, no_for_ns=False):
     """semantic context overrides: global entries and entries for exact namespaces."""
     ms = A.mounts(world, root)
     glob = {}
@@ -303,7 +309,7 @@ def gen_overrides(r, world, root):
             for p in world['classes'][cid]['params']:
                 if r.random() < 0.25:
                     key = p['nic'] or p['name']
-                    if ns and r.random() < 0.6:
+                    if ns and r.random() < 0.6 and not no_for_ns:
                         for_ns.setdefault(ns, {})[key] = r.choice(p['pool'])
                     else:
                         glob[key] = r.choice(p['pool'])
